@@ -100,6 +100,41 @@ def check_termobj(hist):
     return None
 
 
+TWIN_LEADS = ['x', 'x*y', '-x', '2*x', 'x+y']
+TWIN_TERMS = ['x', '-x', 'x*y', 'y', '-x*y', '2*x']
+
+
+def check_twins(lead, form, hist):
+    """Equation A is built from a string and receives the history; equation B is built afterwards from the SAME
+    string (same constructor form): B must render exactly the string's value, A the string plus the added terms."""
+    case = {'kind': 'twins', 'lead': lead, 'form': form, 'history': list(hist)}
+
+    def build(name):
+        if form == 'rhs':
+            return Equation(name, 'd', rhs=lead)
+        if form == 'lhs_eq':
+            return Equation(name + ' = ' + lead)
+        return Equation(name, 'd', [Term(lead, is_blob=True)])
+    a = build('p')
+    ref = values(lead)
+    for t in hist:
+        try:
+            a.AddTerm(t)
+        except Exception as ex:
+            return core.violation('addterm-raises:%s' % type(ex).__name__, 'AddTerm(%r) raised %r' % (t, ex), case)
+        ref = tuple(u + w for u, w in zip(ref, values(t)))
+    b = build('q')
+    try:
+        if values(a.RHS()) != ref:
+            return core.violation(classify({'lead': [form, lead], 'history': list(hist)}), 'first equation renders %r, expected value %s' % (a.RHS(), [str(x) for x in ref]), case)
+        if values(b.RHS()) != values(lead):
+            return core.violation('value-leaks-between-equations', 'a second equation built from %r renders %r after the first one received %r' % (
+                lead, b.RHS(), hist), case)
+    except Exception as ex:
+        return core.violation('invalid-expression', 'rendering not evaluable: %r' % (ex,), case)
+    return None
+
+
 def value(expr, v):
     e = expr.strip()
     if e == '':
@@ -193,6 +228,8 @@ def units(tier):
     # Term objects (instead of strings) handed to AddTerm, re-used within and across two equations
     for first in range(len(OBJ_OPS)):
         out.append({'kind': 'termobj', 'first': first, 'depth': BOUNDS[tier]['termobj_depth']})
+    for lead in TWIN_LEADS:
+        out.append({'kind': 'twins', 'lead': lead, 'depth': 3 if tier == 'quick' else 4})
     return out
 
 
@@ -205,6 +242,23 @@ def run_unit(unit, tier):
         run_lists(unit, res, dig)
     elif unit['kind'] == 'termobj':
         run_termobj(unit, res, dig)
+    elif unit['kind'] == 'twins':
+        for form in ('rhs', 'lhs_eq', 'blob'):
+            for n in range(1, unit['depth'] + 1):
+                for hist in itertools.product(TWIN_TERMS, repeat=n):
+                    dig.add(('twins', unit['lead'], form, hist))
+                    v = check_twins(unit['lead'], form, hist)
+                    res['evaluations'] += 1
+                    res['transitions'] += n + 2
+                    res['states'] += 1
+                    res['traces'] += 1
+                    res['nontrivial'] += 1
+                    if v:
+                        res['violations'].append(v)
+                        core.bump(res['outcomes'], 'twins-violation')
+                    else:
+                        core.bump(res['outcomes'], 'twins-ok')
+        res['samples'].append({'twins': 'Equation(p, rhs=%r) + history, then Equation(q, rhs=%r)' % (unit['lead'], unit['lead'])})
     else:
         r = create_equation_from_terms([])
         res['evaluations'] += 1
@@ -313,6 +367,9 @@ def check_list(terms):
 
 
 def replay(case):
+    if case['kind'] == 'twins':
+        v = check_twins(case['lead'], case['form'], case['history'])
+        return [v] if v else []
     if case['kind'] == 'termobj':
         v = check_termobj(case['history'])
         return [v] if v else []
